@@ -469,11 +469,23 @@ impl<'a> OpGen<'a> {
                             _ => None,
                         },
                     };
-                    match (leaf, ty.list_depth()) {
-                        (Some(l), 0) => Some(l),
-                        (Some(l), 1) => Some(if rng.chance(50) { format!("[{}, {}]", l, l) } else if rng.chance(50) { "[]".to_string() } else { l }),
-                        (Some(l), 2) => Some(format!("[[{}], []]", l)),
-                        _ => None,
+                    // `null` is a valid default wherever the type is nullable (the whole value, or an element of a list
+                    // whose elements are nullable)
+                    let elem_nullable = |t: &ATy| -> bool {
+                        let inner = match t { ATy::NonNull(i) => &**i, other => other };
+                        matches!(inner, ATy::List(e) if !e.is_non_null())
+                    };
+                    if !ty.is_non_null() && rng.chance(15) {
+                        Some("null".to_string())
+                    } else {
+                        match (leaf, ty.list_depth()) {
+                            (Some(l), 0) => Some(l),
+                            (Some(l), 1) if elem_nullable(&ty) && rng.chance(30) => Some(format!("[{}, null]", l)),
+                            (Some(l), 1) => Some(if rng.chance(50) { format!("[{}, {}]", l, l) } else if rng.chance(50) { "[]".to_string() } else { l }),
+                            (Some(l), 2) if elem_nullable(&ty) && rng.chance(30) => Some(format!("[[{}], null]", l)),
+                            (Some(l), 2) => Some(format!("[[{}], []]", l)),
+                            _ => None,
+                        }
                     }
                 } else {
                     None
